@@ -62,6 +62,22 @@ func (ex *Exec) primOrder(name string, nv Value) Value {
 	return ex.newBig(BigVal{I: o, E: smt.RealC(new(big.Rat))})
 }
 
+// primHalfOrder: the order (P-1)/2 of the quadratic residues modulo a safe prime P (keyproof's group)
+func (ex *Exec) primHalfOrder(name string, nv Value) Value {
+	nb, _ := bigOf(nv)
+	var lo, hi *big.Int
+	if nb.I.Lo != nil {
+		lo = new(big.Int).Rsh(nb.I.Lo, 1)
+	}
+	if nb.I.Hi != nil {
+		hi = new(big.Int).Rsh(nb.I.Hi, 1)
+	}
+	o := smt.Var(name, smt.Int, lo, hi)
+	ex.assume(smt.Eq(smt.Add(smt.Mul(smt.I64(2), o), smt.I64(1)), nb.I))
+	ex.modKinds[o.ID] = &ModInfo{Kind: "order", Name: name}
+	return ex.newBig(BigVal{I: o, E: smt.RealC(new(big.Rat))})
+}
+
 var realZero = smt.RealC(new(big.Rat))
 var realOne = smt.RealC(big.NewRat(1, 1))
 
